@@ -60,7 +60,7 @@ TraceAccepted ==
 (* logged pair comes from a decryption call                                                    *)
 EncOnly ==
   (fin /\ Objs # {} /\ \A o \in Objs : Ob(o).kind \in C03Kinds /\ Ob(o).exps = <<>>) =>
-     \A t \in 1..Len(Rec[s].tabs) : \A i \in 1..Len(Rec[s].tabs[t]) : Rec[s].tabs[t][i][3] = 0
+     \A t \in 1..Len(Rec[s].tabs) : Rec[s].tabs[t].ndec = 0
 
 Viol(id, ok) == ok \/ (PrintT(<<"VIOL", id, Rec[s].id, s, l - 1>>) /\ FALSE)
 I01 == Viol("C01", C01)
